@@ -37,7 +37,7 @@ use crate::utils;
 
 /// A classical, flexible, q-gram index implementation.
 ///
-/// Uses |alphabet|^q + k words of memory, where k is the number of q-grams in the text with count at most `max_count` (if specified).
+/// Uses 2^(q * ⌈log2(|alphabet|)⌉) + k words of memory, where k is the number of q-grams in the text with count at most `max_count` (if specified).
 #[derive(Default, Clone, Eq, PartialEq, Ord, PartialOrd, Hash, Debug, Serialize, Deserialize)]
 pub struct QGramIndex {
     q: u32,
@@ -71,7 +71,12 @@ impl QGramIndex {
         let text = text.into_iter();
         let ranks = RankTransform::new(alphabet);
 
-        let qgram_count = alphabet.len().pow(q);
+        // q-grams are encoded with `ranks.get_width()` bits per symbol (see `RankTransform::qgrams`),
+        // so the codes range over 2^(width * q) values. This is more than |alphabet|^q
+        // unless the alphabet size is a power of two.
+        let qgram_count = 1usize
+            .checked_shl(ranks.get_width() as u32 * q)
+            .expect("Expecting q to be smaller than usize / log2(|A|)");
         let mut address = vec![0; qgram_count + 1];
 
         for qgram in ranks.qgrams(q, text.clone()) {
